@@ -12,7 +12,8 @@ use tx3_tir::model::v1beta0 as tir;
 use tx3_tir::reduce::Apply as _;
 
 pub fn example_sources() -> Vec<(String, String)> {
-    let mut out = vec![];
+    // (with the feature programs of the front-end corpus: the ones that lower take part)
+    let mut out = crate::frontp::extra_corpus();
     let dir = "/repo/examples";
     let mut names: Vec<_> = std::fs::read_dir(dir)
         .map(|d| d.filter_map(|e| e.ok()).map(|e| e.path()).collect::<Vec<_>>())
